@@ -615,6 +615,10 @@ func (pr *Prover) lenFacts(fs *factSet, s ssa.Value, depth int) {
 					if fv, _ := localFieldValue(a, fa.Field, x, 0); fv != nil {
 						pr.lenFacts(fs, fv, depth+1)
 					}
+				} else if n := reachingGrow(pr.P, x); n != nil {
+					// m.grow(n) dominates the load and nothing but grow can have changed the field since
+					fs.le(pr.lin(n), lin{"len(" + pr.K.Key(s) + ")", 0}, 0, "grow(n) leaves len >= n (C03.grow)")
+					pr.defFacts(fs, n, depth+1)
 				} else if st := reachingFieldStore(pr.P, x); st != nil {
 					// a field of a heap object read back with no possible write in between: the stored slice
 					a, b := lin{"len(" + pr.K.Key(s) + ")", 0}, pr.linLen(st.Val, "len")
